@@ -54,7 +54,7 @@ type liveFigs struct {
 }
 
 func newLiveFigs() *liveFigs {
-	return &liveFigs{total: map[string]*fig{"M": {}, "N": {}}, user: map[string]map[string]*fig{"M": {}, "N": {}}}
+	return &liveFigs{total: map[string]*fig{"M": {}, "N": {}, "W": {}}, user: map[string]map[string]*fig{"M": {}, "N": {}, "W": {}}}
 }
 
 func (l *liveFigs) add(srv, user string, f fig) {
@@ -71,14 +71,20 @@ func (l *liveFigs) add(srv, user string, f fig) {
 
 func liveCase(e *core.Env, ci int, r *core.RNG) {
 	rec := e.Rec
-	ports := svx.FreePorts(3)
+	ports := svx.FreePorts(5)
 	t := &svx.Topo{Dir: filepath.Join(e.WorkDir, fmt.Sprintf("c14-live-%d", ci))}
 	nProto := r.PickStr("none", "socks5")
 	batch := r.PickStr("", "no")
 	so := svx.ServerOpts{TCP: true, UDP: true, DisableWait: true, BatchMode: batch, NATTimeout: "1m0s"}
+	// W: a server without native initial payload that waits for the client's first bytes (250 ms, virtual) and hands
+	// them to a chained upstream client with native initial payload; B is that upstream's server.
+	wProto := r.PickStr("socks5", "http")
 	cfg := map[string]any{
-		"servers": []any{t.Server("M", "ssmulti", ports[0], so), t.Server("N", nProto, ports[1], so)},
-		"clients": []any{svx.Direct("direct")},
+		"servers": []any{t.Server("M", "ssmulti", ports[0], so), t.Server("N", nProto, ports[1], so),
+			t.Server("W", wProto, ports[3], svx.ServerOpts{TCP: true}), t.Server("B", "none", ports[4], svx.ServerOpts{TCP: true, DisableWait: true})},
+		"clients": []any{svx.Direct("direct"), t.ClientFor("up", "B", "none", ports[4], 0, true, false)},
+		"router": map[string]any{"defaultTCPClientName": "direct", "defaultUDPClientName": "direct",
+			"routes": []any{map[string]any{"name": "w-up", "network": "tcp", "fromServers": []any{"W"}, "client": "up"}}},
 		"api":     map[string]any{"enabled": true, "listeners": []any{map[string]any{"network": "tcp", "address": fmt.Sprintf("127.0.0.1:%d", ports[2])}}},
 	}
 	inst, err := svx.Start(svx.JSON(cfg))
@@ -87,7 +93,7 @@ func liveCase(e *core.Env, ci int, r *core.RNG) {
 		return
 	}
 	defer inst.Stop(20 * time.Second)
-	if !inst.WaitLogs("relay service listener", 4, 40*time.Second) {
+	if !inst.WaitLogs("relay service listener", 6, 40*time.Second) {
 		rec.Inconclusive("live listeners")
 		return
 	}
@@ -118,6 +124,14 @@ func liveCase(e *core.Env, ci int, r *core.RNG) {
 		actors = append(actors, &liveActor{"N", "", cl})
 	}
 
+	{
+		cl, err := svx.NewClient(svx.JSON(t.ClientFor("w", "W", wProto, ports[3], 0, true, false)))
+		if err != nil {
+			rec.Inconclusive("live client: " + err.Error())
+			return
+		}
+		actors = append(actors, &liveActor{"W", "", cl})
+	}
 	exp := newLiveFigs()
 	var kinds sync.Map
 	var failMu sync.Mutex
@@ -138,7 +152,11 @@ func liveCase(e *core.Env, ci int, r *core.RNG) {
 			defer wg.Done()
 			for k := 0; k < nops; k++ {
 				tag := uint64(ci)<<24 | uint64(ai)<<16 | uint64(k)
-				switch kind := ar.PickStr("tcp-echo", "tcp-rst", "udp", "udp"); kind {
+				kind := ar.PickStr("tcp-echo", "tcp-rst", "udp", "udp")
+				if a.cl.UDP == nil {
+					kind = ar.PickStr("tcp-echo", "tcp-echo", "tcp-rst")
+				}
+				switch kind {
 				case "tcp-echo":
 					U := ar.Pick(1, 900, 20000, 70000)
 					data := core.Pattern(tag, 0, U)
@@ -160,6 +178,9 @@ func liveCase(e *core.Env, ci int, r *core.RNG) {
 					cc.Close()
 					exp.add(a.srv, a.user, fig{cDlBytes: uint64(U), cUlBytes: uint64(U), cTCP: 1})
 					kinds.Store(kind, true)
+					if a.srv == "W" {
+						kinds.Store("wait-chained", true)
+					}
 				case "tcp-rst":
 					banner := core.Pattern(tag^0x5555, 0, ar.Pick(1, 700, 7000))
 					tg, err := svx.NewTCPTarget("R", "127.0.0.2", 0, "banner-then-rst", banner)
@@ -271,7 +292,7 @@ func liveCase(e *core.Env, ci int, r *core.RNG) {
 		default:
 			vtime.RealSleep(time.Duration(sr.Range(1, 6)) * time.Millisecond)
 			if sr.Chance(1, 2) {
-				srv := sr.PickStr("M", "N")
+				srv := sr.PickStr("M", "N", "W")
 				if sj, ok := read(srv, true); ok {
 					addTo(acc, srv, sj)
 					midSnaps++
@@ -294,7 +315,7 @@ func liveCase(e *core.Env, ci int, r *core.RNG) {
 	diff := ""
 	ok := svx.Poll(40*time.Second, func() bool {
 		cur = newLiveFigs()
-		for _, srv := range []string{"M", "N"} {
+		for _, srv := range []string{"M", "N", "W"} {
 			sj, ok := read(srv, false)
 			if !ok {
 				diff = "API unreadable"
@@ -303,7 +324,7 @@ func liveCase(e *core.Env, ci int, r *core.RNG) {
 			addTo(cur, srv, sj)
 		}
 		diff = ""
-		for _, srv := range []string{"M", "N"} {
+		for _, srv := range []string{"M", "N", "W"} {
 			got := *acc.total[srv]
 			got.add(*cur.total[srv])
 			if got != *exp.total[srv] {
@@ -363,13 +384,13 @@ func liveCase(e *core.Env, ci int, r *core.RNG) {
 		}
 	}
 	ks := ""
-	for _, k := range []string{"tcp-echo", "tcp-rst", "udp"} {
+	for _, k := range []string{"tcp-echo", "tcp-rst", "udp", "wait-chained"} {
 		if _, ok := kinds.Load(k); ok {
 			ks += k + ","
 		}
 	}
 	rec.Count("live_mid_snapshots", int64(midSnaps))
 	rec.Count("live_mid_snapshots_nonzero", int64(midNonZero))
-	rec.Count("live_sessions", int64(exp.total["M"][cTCP]+exp.total["M"][cUDP]+exp.total["N"][cTCP]+exp.total["N"][cUDP]))
-	rec.Class("live/N=%s/batch=%q/kinds=%s/midsnap=%v", nProto, batch, ks, midNonZero > 0)
+	rec.Count("live_sessions", int64(exp.total["M"][cTCP]+exp.total["M"][cUDP]+exp.total["N"][cTCP]+exp.total["N"][cUDP]+exp.total["W"][cTCP]))
+	rec.Class("live/N=%s/W=%s/batch=%q/kinds=%s/midsnap=%v", nProto, wProto, batch, ks, midNonZero > 0)
 }
